@@ -170,7 +170,20 @@ def phase_a(mod, tier, result):
         result['build_failures'] = failed
         result['build_log_tail'] = log[-3000:]
         if 'driver' in failed or any(f.startswith('PybtexModel.Model') or f.startswith('PybtexModel.Drv') or f == 'Driver' for f in failed):
-            problems.append('model/driver no longer builds: %s' % failed)
+            # Does the breakage concern this property?  Its own dependencies = import closure of its proof and driver modules.
+            drv = ['C%s' % d[1:] if d.startswith('C') else d for d in getattr(mod, 'DRV', [mod.ID])]
+            mine = leanio.import_closure(list(mod.LEAN_MODULES) + ['PybtexModel.Drv.%s' % d for d in drv])
+            culprit = [f for f in failed if f in mine]
+            if culprit:
+                problems.append('model/driver no longer builds: %s' % culprit)
+            else:
+                # another property's model broke the shared driver: link a driver with this property's handlers only
+                ok1, log1 = leanio.build_driver_one(drv)
+                if ok1:
+                    leanio.DRIVER = os.path.join(leanio.LEAN_DIR, '.lake', 'build', 'bin', 'driverone')
+                    result['driver_fallback'] = 'full driver does not build because of %s (not a dependency of %s); using a driver with the handlers of %s only' % (failed, mod.ID, drv)
+                else:
+                    problems.append('model/driver no longer builds: %s; fallback driver: %s' % (failed, log1[-300:]))
         for f in failed:
             if f in built:
                 built.discard(f)
@@ -405,7 +418,7 @@ def write_evidence(mod, tier, seed, result, t0):
         'tables_regenerated_changed': result.get('tables_changed', []),
         'impl_s': result.get('impl_s'), 'model_s': result.get('model_s'),
     }
-    for k in ('leanchecker', 'build_failures'):
+    for k in ('leanchecker', 'build_failures', 'driver_fallback'):
         if k in result:
             cov[k] = result[k]
     ev = {'property_id': mod.ID, 'tier': tier, 'seed': seed, 'level': 'proof', 'coverage': cov,
